@@ -12,7 +12,9 @@ import (
 	"fmt"
 	"os"
 	"path/filepath"
+	"runtime"
 	"sync"
+	"time"
 
 	badger "github.com/dgraph-io/badger/v4"
 )
@@ -62,7 +64,28 @@ func c06ReadBack(c *Ctx, db *badger.DB, want map[string][]byte, sig, what string
 	c.Oracle(len(bad) == 0, sig, what, extra)
 }
 
+// runC06Concurrent runs the two phases under a watchdog: a public call that does not return
+// within the deadline is reported with a goroutine dump (the scratch DB is abandoned).
 func runC06Concurrent(c *Ctx) error {
+	done := make(chan error, 1)
+	go func() { done <- runC06ConcurrentInner(c) }()
+	select {
+	case err := <-done:
+		return err
+	case <-time.After(240 * time.Second):
+		buf := make([]byte, 1<<20)
+		n := runtime.Stack(buf, true)
+		g := string(buf[:n])
+		if len(g) > 8000 {
+			g = g[:8000]
+		}
+		c.Oracle(false, "c06-call-did-not-return", "a commit, read or Close in the concurrent-commit / dynamic-threshold phases did not return within 240 s",
+			J{"goroutines": g})
+		return nil
+	}
+}
+
+func runC06ConcurrentInner(c *Ctx) error {
 	rounds := 3
 	if c.N >= 1000 {
 		rounds = 12
